@@ -1,6 +1,6 @@
 (* Spec.v — the vocabulary in which the property theorems are stated: heap invariants,
    paths, reachability, purity of callbacks.  Definitions only, no proofs. *)
-From Gdsl.Model Require Export Base NodeOps Search.
+From Gdsl.Model Require Export Base NodeOps Search Container.
 From Coq Require Export Permutation.
 
 Set Implicit Arguments.
@@ -93,6 +93,20 @@ Section Spec.
     Definition RootLast (root : nat) (tree : list edge) : Prop :=
       forall t1 e t2, tree = t1 ++ e :: t2 -> edst e = root -> t2 = [].
   End Graph.
+
+  (* ---------------- containers ---------------- *)
+  (* a container binds each key at most once, to a live node carrying that key *)
+  Definition GraphOK (h : heap) (g : graph K) : Prop :=
+    NoDup (map (@fst K nat) g) /\ (forall k u, In (k, u) g -> keyof h u = Some k /\ u < size h).
+  Definition members (g : graph K) : list nat := map (@snd K nat) g.
+  (* every neighbour (in either direction) of a member is a member (C11, C12) *)
+  Definition Closed (h : heap) (g : graph K) : Prop :=
+    forall u, In u (members g) ->
+      (forall v e, In (v, e) (outs h u) -> In v (members g)) /\
+      (forall v e, In (v, e) (ins h u) -> In v (members g)).
+  (* the observed iteration order lists every bound key exactly once *)
+  Definition OrderOK (g : graph K) (order : list K) : Prop := Permutation order (map (@fst K nat) g).
+  Definition accept_all : edge -> bool := fun _ => true.
 
   (* ---------------- callbacks ---------------- *)
   (* a callback that, run on heap h, leaves it alone and answers by a fixed predicate:
